@@ -616,13 +616,21 @@ def r15_replies_are_decoded_from_their_text(ctx):
     R.floor("C15.R15", n, 200, "client bodies scanned")
 
 
+def rkey_unsubscribe_reads_the_id_as_written(ctx):
+    """round trip of a subscription id on the library's own path: `accept` writes the id into the subscribe reply and
+    stores it as the key; the unsubscribe handler must look up exactly the value it decodes (no normalisation)"""
+    from .common import server_unsubscribe_key_is_the_decoded_id
+
+    server_unsubscribe_key_is_the_decoded_id(ctx, "C15.KEY")
+
+
 def rids_wire_ids_derive_both(ctx):
     """ids are serialised and parsed by mirror-image (derived) impls"""
     from .common import wire_ids_derive_both
     wire_ids_derive_both(ctx, "C15.IDS")
 
 
-RULES = [r1_code_tables, r2_serializer, r3_field_tables, r4_duplicate_guards, r5_acceptance_table, r6_no_handmade_json, r7_no_borrowed_str, r8_into_owned_is_fieldwise, r9_client_tries_response_first, r10_http_errors_keep_the_envelope, r11_subscription_id_numbers_are_u64, r12_derived_writers_mirror_their_readers, r13_request_decoder_is_plain, r14_null_id_is_an_id, r15_replies_are_decoded_from_their_text, rids_wire_ids_derive_both]
+RULES = [r1_code_tables, r2_serializer, r3_field_tables, r4_duplicate_guards, r5_acceptance_table, r6_no_handmade_json, r7_no_borrowed_str, r8_into_owned_is_fieldwise, r9_client_tries_response_first, r10_http_errors_keep_the_envelope, r11_subscription_id_numbers_are_u64, r12_derived_writers_mirror_their_readers, r13_request_decoder_is_plain, r14_null_id_is_an_id, r15_replies_are_decoded_from_their_text, rids_wire_ids_derive_both, rkey_unsubscribe_reads_the_id_as_written]
 
 LEVEL_TEXT = (
     "Decision tables and structural facts extracted exactly from the type-checked serde code: the error-code tables are "
